@@ -1,7 +1,7 @@
 (* C06 - Supervisor: state map converges to true runnable states; subscribers see it.
    Statements only. *)
 From Coq Require Import List Bool Arith.
-From GS Require Import LTS Supervisor SupAccept SupProps SupInv SupGate SupState SupFinal SupSubs.
+From GS Require Import LTS Supervisor SupAccept SupProps SupInv SupGate SupState SupFinal SupSubs SupEntry.
 Import ListNotations.
 
 (* While the supervisor is running (its context not cancelled), in EVERY quiescent state
@@ -61,11 +61,11 @@ Definition c06_bad_cfg : config :=
                    stop_style := StopNonBlocking; run_exit := ExitOnSignal; held_sub := false |} ];
      startup_may_fire := false; shutdown_may_fire := false |}.
 Definition c06_bad_sched : list label :=
-  [LLaunch 0; LRunCall 0; LMonSub 0; LMonRecv 0; LPoll 0 true; LGateDecide 0;
+  [LLaunch 0; LRunStore 0; LRunCall 0; LMonSub 0; LMonRecv 0; LPoll 0 true; LGateDecide 0;
    LCall 1 OpShutdown; LCallerGo 1; LStopCall 0; LEmit 0 4; LEmit 0 5; LRunRet 0 None; LStopRet 0;
    LMonRecv 0; LSdCancel; LStmExit; LSdWgDone; LReapCtx; LMainShutdown; LMainReturn ResNil].
 Example C06_witness_before_restore :
-  exists s1, run (step c06_bad_cfg) (init c06_bad_cfg) (firstn 14 c06_bad_sched) = Some s1 /\
+  exists s1, run (step c06_bad_cfg) (init c06_bad_cfg) (firstn 15 c06_bad_sched) = Some s1 /\
              smap_at s1 0 = Some 4 /\ fin_at s1 0 = Some 5.
 Proof. eexists. split; [vm_compute; reflexivity|]. split; reflexivity. Qed.
 Example C06_witness_repaired :
@@ -88,7 +88,7 @@ Definition c06_cfg : config :=
                    stop_style := StopNonBlocking; run_exit := ExitOnSignal; held_sub := true |} ];
      startup_may_fire := false; shutdown_may_fire := false |}.
 Definition c06_sched : list label :=
-  [LLaunch 0; LRunCall 0; LEmit 0 2; LSubRel 0; LMonSub 0; LMonRecv 0; LMonBcast 0].
+  [LLaunch 0; LRunStore 0; LRunCall 0; LEmit 0 2; LSubRel 0; LMonSub 0; LMonRecv 0; LMonBcast 0].
 Example C06_ex_late_subscription :
   exists s, run (step c06_cfg) (init c06_cfg) c06_sched = Some s /\
             smap_at s 0 = Some 2 /\ cur_at s 0 = 2 /\ ran (rn_at s 0).
@@ -96,23 +96,13 @@ Proof. eexists. split; [vm_compute; reflexivity|]. split; [reflexivity|]. split;
 
 (* ---- the subscriber clause ---- *)
 
-(* "A subscriber that keeps up eventually receives a snapshot equal to the quiescent map" is FALSE
-   of the model as it stands (SupSubs.subs_sched): the subscriber arrives before runnable 1 is
-   started; startRunnable stores runnable 1's initial state without a broadcast and the monitor
-   discards the first channel value because it equals the stored one.  At quiescence, context not
-   cancelled, channel drained, still registered: the subscriber's newest snapshot lacks the entry. *)
-Theorem C06_subscriber_refuted :
-  exists c ls s b,
-    run (step c) (init c) ls = Some s /\ quiescent c s = true /\ ctx_done s = false /\
-    find_sub 7 (subs s) = Some b /\ sub_registered b = true /\ sub_buf b = [] /\
-    last_sent s 7 = Some [Some 0; None] /\ smap s = [Some 0; Some 0].
-Proof. exact c06_subscriber_refuted. Qed.
-
-(* What holds: from the moment SubscribeStateChanges ran (LSubDo c0), along every run in which
-   (run_ok) the subscriber's channel has room at every broadcast, the stores done by startRunnable /
-   Shutdown / the reload manager do not change the map (the map is written by monitors only), the
-   state-monitor manager has not exited and c0 is not unsubscribed: in every quiescent state the
-   newest snapshot sent to c0 - the last one in its channel, or the last one it took - IS the map. *)
+(* From the moment SubscribeStateChanges ran (LSubDo c0), along every run in which (run_ok) the
+   subscriber's channel has room at every broadcast (a monitor's, or startRunnable's after it stored
+   the initial state of a newly started runnable), the stores done by Shutdown / the reload manager
+   do not change the map, the state-monitor manager has not exited and c0 is not unsubscribed: in
+   every quiescent state the newest snapshot sent to c0 - the last one in its channel, or the last
+   one it took - IS the map.  (Before the initial-broadcast repair of startRunnable this needed the
+   extra hypothesis that no runnable is started after the subscription: see C06_ex_late_entry.) *)
 Theorem C06_subscriber : forall c c0 s0 s1 ls s,
   reachable_sup c s0 -> step c s0 (LSubDo c0) = Some s1 ->
   run (step c) s1 ls = Some s -> run_ok c c0 s1 ls ->
@@ -127,12 +117,11 @@ Theorem C06_subscriber_drained : forall c c0 s0 s1 ls s b,
   last_recv c0 (hist s) = Some (smap s).
 Proof. exact sup_c06_subscriber_drained. Qed.
 
-Print Assumptions C06_subscriber_refuted.
 Print Assumptions C06_subscriber.
 Print Assumptions C06_subscriber_drained.
 
 (* non-vacuity: a subscriber follows a state change of a running runnable *)
-Definition c06_sub_pre : list label := [LLaunch 0; LRunCall 0; LMonSub 0; LMonRecv 0; LSubscribe 7].
+Definition c06_sub_pre : list label := [LLaunch 0; LRunStore 0; LRunCall 0; LMonSub 0; LMonRecv 0; LSubscribe 7].
 Definition c06_sub_run : list label :=
   [LSubRecv 7 [Some 0]; LEmit 0 2; LMonRecv 0; LMonBcast 0; LSubRecv 7 [Some 2]; LPoll 0 true; LGateDecide 0].
 Example C06_ex_subscriber :
@@ -150,3 +139,38 @@ Proof.
   split; [vm_compute; reflexivity|]. split; [vm_compute; reflexivity|]. split; [reflexivity|].
   split; vm_compute; reflexivity.
 Qed.
+
+(* the schedule that refuted the clause before the repair: the subscriber arrives before runnable 1
+   is started, and runnable 1 never changes state afterwards.  startRunnable now broadcasts: at the
+   quiescent point the subscriber's channel holds the full map *)
+Example C06_ex_late_entry :
+  exists s b,
+    run (step subs_cfg) (init subs_cfg) subs_sched = Some s /\ quiescent subs_cfg s = true /\
+    find_sub 7 (subs s) = Some b /\ sub_buf b = [[Some 0; Some 0]] /\
+    last_sent s 7 = Some [Some 0; Some 0] /\ smap s = [Some 0; Some 0].
+Proof. exact subs_sched_delivers. Qed.
+
+(* The same clause as a property of observable traces (monitor c06_sub_entry, evaluated on the
+   implementation's traces): a subscriber that had already taken a snapshot and had not been
+   cancelled when a Stateable runnable j was started has, by the time it sees its channel closed,
+   taken a snapshot with an entry for j - unless it took ten or more snapshots after the start (its
+   channel may have been full when startRunnable broadcast). *)
+Theorem C06_sub_entry : forall c ls s,
+  run (step c) (init c) ls = Some s -> c06_sub_entry c (obs_trace obs ls) = true.
+Proof. exact sup_c06_sub_entry. Qed.
+
+Print Assumptions C06_sub_entry.
+
+(* non-vacuity: the monitor rejects what the supervisor did before the repair (the subscriber
+   drains its channel and sees it closed without ever having been told about runnable 1) and
+   accepts the repaired behaviour *)
+Example C06_ex_sub_entry_rejects :
+  c06_sub_entry subs_cfg
+    [ERunCall 0; ESubscribe 7; ESubRecv 7 [Some 0; None]; EPoll 0 true; ERunCall 1; EPoll 1 true; EQuiet;
+     ESubCancel 7; ESubClosed 7] = false.
+Proof. vm_compute. reflexivity. Qed.
+Example C06_ex_sub_entry_accepts :
+  c06_sub_entry subs_cfg
+    [ERunCall 0; ESubscribe 7; ESubRecv 7 [Some 0; None]; EPoll 0 true; ERunCall 1; EPoll 1 true; EQuiet;
+     ESubCancel 7; ESubRecv 7 [Some 0; Some 0]; ESubClosed 7] = true.
+Proof. vm_compute. reflexivity. Qed.
